@@ -87,14 +87,14 @@ def scenarios(tier):
                 if not quick and size not in (61, 119, 120, 121, 179, 180, 181, 599, 600, 601) and (wa, wb) not in ((2, 3), (255, 255)):
                     continue
                 sc = {'dll': DLL, 'stacks': stacks3(wa, wb), 'base_lat': base,
-                      'msgs': [msg(0x10, 'p2p', 0x20, size, pat=size % 3)]}
+                      'msgs': [msg(0x10, 'p2p', 0x20, size, pat=size % 3, dp=size % 2)]}
                 items.append((sc, 0))
             if not big or quick:
                 for kind, dst in (('bam1', 255), ('bam2', 0x10)):
                     if not quick and size > 700 and kind == 'bam1':
                         continue
                     sc = {'dll': DLL, 'stacks': stacks3(), 'base_lat': base,
-                          'msgs': [msg(0x10, kind, dst, size, pat=(size + 1) % 3)]}
+                          'msgs': [msg(0x10, kind, dst, size, pat=(size + 1) % 3, dp=size % 2)]}
                     items.append((sc, 0))
     # concurrent sessions: k RTS/CTS + b BAM per originator, one or both directions
     def batch(src, dsts, k, b, size0):
